@@ -957,8 +957,8 @@ PROPS = {
         assumptions=OS_ASSUMPTIONS,
     ),
     "C06": dict(
-        modules=["C06", "C06Sys", "C06Normal"],
-        theorems=['c06_normalize_partial', 'c06_normalize_small_partial', 'c06_purgesLegal_of_no_purge', 'c06_normalize_legal_id', 'c01_state_any_history_partial', 'c11_journal_invariant_any_history', 'c15_accounting_exact_any_history', 'c16_read_no_panic_any_history_partial', 'c02_clean_restart_any_history_partial', 'c03_crash_prefix_any_history_partial', 'normalize_run_C6N', 'normalize_rel_C6N', 'normalize_append_C6N', 'c06_rejected_record_noop', 'c06_err_is_noop', 'c06_rejected_call_noop', 'c06_batch_rejected_entry_noop', 'c06_spec_rejects_vote', 'c06_spec_rejects_commit', 'c06_batch_refused_entry_noop', 'c06_batch_rejected_entry_noop_any', 'c06_settle_idempotent', 'c06_step_settled', 'c06_reachable_settled', 'c06_sys_rejected_is_identity', 'c06_sys_rejected_single', 'c06_sys_rejected_is_identity_reachable', 'c06_rejected_invisible_forever', 'c06_rejected_invisible_in_history', 'c06_sys_batch_rejected_prefix', 'c06_same_verdict', 'c06_never_rejected', 'c06_sys_same_verdict', 'c06_sys_same_verdict_csys', 'c06_sys_same_verdict_sysRef', 'Sys.runCycles_settled', 'c06_sys_same_verdict_reachable', 'c06_sys_same_verdict_c01', 'c06_sys_batch_same_verdict', 'c06_same_verdict_any', 'c06_sys_same_verdict_any'],
+        modules=["C06", "C06Sys", "C06Normal", "ReachAny"],
+        theorems=['reachLIFT_settled', 'reachLIFT_any_history', 'reachLIFT_of_any_history', 'c06_normalize_partial', 'c06_normalize_small_partial', 'c06_purgesLegal_of_no_purge', 'c06_normalize_legal_id', 'c01_state_any_history_partial', 'c11_journal_invariant_any_history', 'c15_accounting_exact_any_history', 'c16_read_no_panic_any_history_partial', 'c02_clean_restart_any_history_partial', 'c03_crash_prefix_any_history_partial', 'normalize_run_C6N', 'normalize_rel_C6N', 'normalize_append_C6N', 'c06_rejected_record_noop', 'c06_err_is_noop', 'c06_rejected_call_noop', 'c06_batch_rejected_entry_noop', 'c06_spec_rejects_vote', 'c06_spec_rejects_commit', 'c06_batch_refused_entry_noop', 'c06_batch_rejected_entry_noop_any', 'c06_settle_idempotent', 'c06_step_settled', 'c06_reachable_settled', 'c06_sys_rejected_is_identity', 'c06_sys_rejected_single', 'c06_sys_rejected_is_identity_reachable', 'c06_rejected_invisible_forever', 'c06_rejected_invisible_in_history', 'c06_sys_batch_rejected_prefix', 'c06_same_verdict', 'c06_never_rejected', 'c06_sys_same_verdict', 'c06_sys_same_verdict_csys', 'c06_sys_same_verdict_sysRef', 'Sys.runCycles_settled', 'c06_sys_same_verdict_reachable', 'c06_sys_same_verdict_c01', 'c06_sys_batch_same_verdict', 'c06_same_verdict_any', 'c06_sys_same_verdict_any'],
         gen=scripts_c06, project=proj_c06, footprint=footprint_c06, oracle=oracle_c06,
         explanation="a rejected call is a no-op on the whole model state",
         assumptions=OS_ASSUMPTIONS,
